@@ -14,6 +14,7 @@ import json, os, sys, re, subprocess, shutil
 from concurrent.futures import ThreadPoolExecutor
 sys.path.insert(0, os.path.join(os.path.dirname(os.path.abspath(__file__)), "..", "lib"))
 from vlib import *
+from vpar import validate_traces_parallel
 
 KEYS = ["k1", "k2", "k3", "k4"]
 OPMAP = {"Rotate": {"op": "Rotate"}, "FlushWait": {"op": "FlushWait"},
@@ -265,7 +266,7 @@ def run(ctx):
         results.append((bulk_wl, bulk_pt))
         traces.append(to_trace(pid, bulk_wl, bulk_pt))
         ctx.log("bulk WAL scenario: %s" % val)
-    rejected = ctx.validate_traces("RecoveryPropTrace", "RecoveryPropTrace.cfg", traces, timeout=1500)
+    rejected = validate_traces_parallel(ctx, "RecoveryPropTrace", "RecoveryPropTrace.cfg", traces, timeout=1800, chunk=800)
     ctx.log("M3: %d crash traces validated, %d mismatches" % (len(traces), len(rejected)))
     known = {f["id"]: f for f in ctx.load_known()}
     hits, reported = {}, set()
